@@ -120,6 +120,7 @@ func main() {
 	genProxyCFG()
 	genUpstream()
 	genDiscovery()
+	genConfig()
 	if forProp == "" || forProp == "C15" {
 		genLockset()
 	}
